@@ -5,6 +5,7 @@
 package linkworld
 
 import (
+	"bytes"
 	"errors"
 	"fmt"
 	"io"
@@ -241,8 +242,11 @@ type Drain struct {
 	// Mismatch lists delivered frames whose accessors (what a handler sees: SrcIP, DstIP, MessageType) disagree
 	// with the frame's own bytes.
 	Mismatch []string
-	stop     chan struct{}
-	once     sync.Once
+	// Hold: the handler keeps every frame until the next one arrived (at most 1 ms) and compares it again.
+	Hold    atomic.Bool
+	arrived int
+	stop    chan struct{}
+	once    sync.Once
 }
 
 // StartDrain starts draining n's frame handler channel.
@@ -263,7 +267,33 @@ func StartDrain(n *world.Node) *Drain {
 							d.Mismatch = append(d.Mismatch, fmt.Sprintf("handler sees %s -> %s type %d, the bytes say %s -> %s type %d", f.SrcIP(), f.DstIP(), f.MessageType(), src, dst, raw[4]))
 						}
 					}
+					d.arrived++
+					mine := d.arrived
+					first := d.Frames[len(d.Frames)-1]
 					d.mu.Unlock()
+					if d.Hold.Load() {
+						// a handler works on the frame for a while: until the next frame arrived (at most 1 ms)
+						go func() {
+							deadline := time.Now().Add(time.Millisecond)
+							for time.Now().Before(deadline) {
+								d.mu.Lock()
+								next := d.arrived > mine
+								d.mu.Unlock()
+								if next {
+									break
+								}
+								time.Sleep(20 * time.Microsecond)
+							}
+							time.Sleep(50 * time.Microsecond)
+							if again, err := f.FrameDataWithMargins(0, 0); err != nil || !bytes.Equal(again, first) {
+								d.mu.Lock()
+								d.Mismatch = append(d.Mismatch, "the frame changed while the handler held it")
+								d.mu.Unlock()
+							}
+							f.ReturnToPool()
+						}()
+						continue
+					}
 				}
 				f.ReturnToPool()
 			case <-d.stop:
